@@ -248,7 +248,11 @@ func (r *Report) classify(P *Program, hs HarnessSpec, ex *Explorer, hr *HarnessR
 			r.Lines = append(r.Lines, fmt.Sprintf("  harness=%s kind=%s %s: %s", hs.Name, v.Kind, v.Label, firstLine(v.Detail)))
 			exit = 1
 		default:
-			r.Inconclusive = append(r.Inconclusive, fmt.Sprintf("%s: ENCODING-MISMATCH: counterexample for %q did not reproduce natively (%s): %s", hs.Name, v.Label, outcome, path))
+			tag := "ENCODING-MISMATCH"
+			if hs.Sched {
+				tag = "NOT-REPRODUCED (the counterexample needs a particular interleaving inside the library, which the native replay cannot force)"
+			}
+			r.Inconclusive = append(r.Inconclusive, fmt.Sprintf("%s: %s: counterexample for %q did not reproduce natively (%s): %s", hs.Name, tag, v.Label, outcome, path))
 			if exit == 0 {
 				exit = 2
 			}
